@@ -1,7 +1,7 @@
 ---------------------------- MODULE MC_BlockExec ----------------------------
 EXTENDS BlockExec, Json
 MCEnv == [cache : {"cold", "warm", "used"}, procs : {1, 16}, maporder : {1, 2}]
-MCObjOf == [k \in {"govpart_miner", "govok_miner", "govpart_storage", "govok_storage"} |->
+MCObjOf == [k \in {"govpart_miner", "govok_miner", "govpart_storage", "govcommit_storage"} |->
               IF k \in {"govpart_miner", "govok_miner"} THEN "minersc_global_node" ELSE "storagesc_config"]
 GPrint == (results = {} /\ blk # <<>>) => PrintT(<<"BEHAVIOUR", ToJson(hist)>>)
 =============================================================================
